@@ -129,8 +129,12 @@ PROPS = {
                 "canonical dump (len, every element by get and by iteration) and the element ledger must be unchanged, and the model "
                 "must keep agreeing over the valid operations that follow. Non-trivial = >= 5 distinct invalid-call kinds injected in "
                 "the run at states of size >= 2; distinct = distinct trace hashes.",
-        "stages": _cont(12, 20000, 600_000, 10),
-        "rare_probes": ["bad.injected", "bad.get-out-of-range", "bad.push_at-out-of-range", "bad.pop-empty", "bad.rem-absent",
+        # + collector-managed objects whose constructor fails (new(Table, K, V, k) with an odd argument count, Range with too many
+        # arguments, ...): the half-built object is registered, and later collections, deletions and the teardown must cope
+        "stages": lambda tier: _cont(12, 20000, 600_000, 10)(tier) + [
+            {"scen": "heap", "env": {"focus": 12, "avoid_kf": AVOID_KF_HEAP}, "runs": 2500 if tier == "quick" else 60_000, "configs": ["plain"], "first": 40_000_000, "chunk": 25},
+            {"scen": "heap", "env": {"focus": 12, "avoid_kf": AVOID_KF_HEAP}, "runs": 400 if tier == "quick" else 8_000, "configs": ["asan"], "first": 45_000_000, "chunk": 25}],
+        "rare_probes": ["heap.failed_constructor", "bad.injected", "bad.get-out-of-range", "bad.push_at-out-of-range", "bad.pop-empty", "bad.rem-absent",
                         "bad.set-wrong-key-type", "bad.set-wrong-value-type", "bad.get-null-key", "bad.resize-below-len",
                         "bad.resize-tree-nonzero", "bad.resize-tuple-grow", "bad.unimplemented-class"],
         "assumptions": COMMON_ASSUME + ["default (checked) build only", "Tuple rem of an absent element is only checked for 'unchanged'"],
@@ -300,13 +304,13 @@ PROPS = {
                 "layout changes. Container/String plans emit a transcript (every length, every element read by get and by iteration, ordered "
                 "Tree iteration, mem results, formatted strings, String contents); its hash and line count must be identical in every "
                 "configuration, and every configuration must also agree with the reference model (a model violation in one configuration is a "
-                "divergence). Exception-tree plans (user-level throw/catch only) must produce the same event trace hash everywhere. quick: 5 "
+                "divergence). Exception-tree plans (user-level throw/catch only) must produce the same event trace hash everywhere. quick: 6 "
                 "configurations; thorough: 13.",
         "rule": "one evaluation = one plan executed under one configuration; non-trivial = the plan created >= 2 containers/strings (containers "
                 "stage) or contains an inner handled exception / throw from a handler (exceptions stage); distinct = distinct trace hashes.",
         "stages": lambda tier: (
             [{"scen": "containers", "env": {"focus": 18, "avoid_kf": AVOID_KF}, "runs": 2500 if tier == "quick" else 40_000, "configs": [c],
-              "differential": True} for c in (["plain", "ndebug-o2", "nocache-o2", "ngc-o2", "o3"] if tier == "quick" else
+              "differential": True} for c in (["plain", "o0", "ndebug-o2", "nocache-o2", "ngc-o2", "o3"] if tier == "quick" else
               ["plain", "o0", "o2", "o3", "ndebug-o0", "ndebug-o2", "ndebug-o3", "nocache-o0", "nocache-o2", "nocache-o3", "ngc-o0", "ngc-o2", "ngc-o3"])] +
             [{"scen": "exc", "env": {"threads": 0, "nolib": 1}, "runs": 2500 if tier == "quick" else 40_000, "configs": [c], "first": 30_000_000, "timeout": 30,
               "differential": True, "diff_keys": ["verdict", "hash"]} for c in (["plain", "ndebug-o2", "nocache-o2", "ngc-o2", "o3"] if tier == "quick" else
